@@ -6,7 +6,8 @@ Import ListNotations.
 From GA.Base Require Import Bytes Align Dec.
 From GA.Gen Require Import Alpha.
 From GA.Model Require Import Sites.
-From GA.Proofs Require Import SitesProofs RefCoordProofs PartitionProofs.
+From GA.Proofs Require Import SitesProofs RefCoordProofs PartitionProofs PartitionOracle.
+From GA.Corr Require C04.
 Local Open Scope Z_scope.
 
 (* SubAlign succeeds exactly on windows inside the alignment (boundary values
@@ -154,6 +155,37 @@ Example C04_add_range_nonvacuous :
   snd r = true /\ ps_parts (fst r) = [-1; 0; -1; -1; 0; -1; -1; 0; -1; -1] /\
   snd (add_range (fst r) [x71] 4 4 1) = false.
 Proof. split; [apply new_pset_wf; discriminate | exact add_range_example]. Qed.
+
+(* a whole partition file (AddRange per range, in order): when every range is accepted, each range lay inside
+   the alignment, every addressed site was free before and is addressed by exactly one range of the file, it
+   carries the index under which that range's name stands in the final name list, and sites no range
+   addresses keep what they had; names are only ever appended *)
+Theorem C04_partition_file :
+  forall l ps ps',
+  ps_wf ps -> add_ranges ps l = (ps', true) ->
+  ps_wf ps' /\ ps_len ps' = ps_len ps /\
+  (exists ext, ps_names ps' = ps_names ps ++ ext) /\
+  (forall x, In x l -> let '(s, e, m) := snd x in 0 <= s /\ e < ps_len ps /\ 0 < m) /\
+  (forall j, 0 <= j -> (forall x, In x l -> ~ addressed_by x j) ->
+     nth (Z.to_nat j) (ps_parts ps') (-1) = nth (Z.to_nat j) (ps_parts ps) (-1)) /\
+  (forall j x, 0 <= j -> In x l -> addressed_by x j ->
+     nth (Z.to_nat j) (ps_parts ps) (-1) = -1 /\
+     name_index (fst x) (ps_names ps') 0 = Some (nth (Z.to_nat j) (ps_parts ps') (-1))) /\
+  ForallOrdPairs (fun x y => forall j, 0 <= j -> ~ (addressed_by x j /\ addressed_by y j)) l.
+Proof. exact add_ranges_spec. Qed.
+Print Assumptions C04_partition_file.
+
+(* the oracle of the correspondence (Corr/C04.v `covers`, the documented meaning of start-end\modulo) is the
+   `addressed` of the theorems above *)
+Theorem C04_oracle_covers_is_addressed :
+  forall s e m i, 0 < m -> (GA.Corr.C04.covers (s, e, m) i = true <-> addressed s e m i).
+Proof. exact covers_addressed. Qed.
+Print Assumptions C04_oracle_covers_is_addressed.
+
+Example C04_partition_file_nonvacuous :
+  snd (add_ranges (new_pset 6) [([x70], (0, 5, 2)); ([x71], (1, 5, 2))]) = true /\
+  ps_parts (fst (add_ranges (new_pset 6) [([x70], (0, 5, 2)); ([x71], (1, 5, 2))])) = [0; 1; 0; 1; 0; 1].
+Proof. vm_compute. auto. Qed.
 
 (* reference coordinates: a FINITE statement, by exhaustive evaluation in the kernel - for every
    reference row of length 1..7 over {A, C, gap} and every window (s, l) of its ungapped residues, the
